@@ -113,13 +113,16 @@ func supervise(id, tier string) int {
 			}
 		}
 	}
-	if code == 0 || code == 1 || code == 2 {
+	out := tail.String()
+	// (the Go runtime itself exits with status 2 after a fatal error, an unrecovered panic or a fatal
+	// signal: an exit status counts as the check's verdict only if the check printed its summary line)
+	finished := regexp.MustCompile(`(?m)^`+regexp.QuoteMeta(id)+` (quick|thorough) seed=-?\d+: verdict=`).MatchString(out) || strings.Contains(out, "INCONCLUSIVE property="+id+" reason=watchdog")
+	if (code == 0 || code == 1 || code == 2) && finished {
 		return code
 	}
-	out := tail.String()
 	run := mon.NewRun(id, tier)
 	site := crashSite(out)
-	libraryCrash := strings.Contains(out, "signal arrived during cgo execution") || strings.Contains(out, "github.com/onflow/crypto") && (strings.Contains(out, "fatal error:") || strings.Contains(out, "SIGSEGV") || strings.Contains(out, "SIGABRT") || strings.Contains(out, "SIGBUS") || strings.Contains(out, "panic:"))
+	libraryCrash := strings.Contains(out, "signal arrived during cgo execution") || strings.Contains(out, "SIGABRT: abort") && strings.Contains(out, "_Cfunc_") || strings.Contains(out, "github.com/onflow/crypto") && (strings.Contains(out, "fatal error:") || strings.Contains(out, "SIGSEGV") || strings.Contains(out, "SIGABRT") || strings.Contains(out, "SIGBUS") || strings.Contains(out, "panic:"))
 	if libraryCrash || fatalSignal != "" {
 		what := "fatal error"
 		if fatalSignal != "" {
